@@ -7,7 +7,7 @@ import time as _real_time
 
 from . import common
 from .stack import VCLOCK, patch_time, ITS_EPOCH_MS, LEAP_MS
-from .c17_sched import VSched
+from .c17_sched import VSched, VLock
 
 PROP = "C17"
 COQ_TARGETS = ["Properties/C17", "Extract/ExC17"]
@@ -22,8 +22,11 @@ TRUSTED_BASE = [
     "independent bit-level reader of the fixed DENM prefix written from the ASN.1 in this harness",
 ]
 ASSUMPTIONS = [
-    "virtual time: a hand-over to BTP takes no time and time.sleep(i/1000) lasts exactly i ms; threads of one "
-    "station are run one at a time by a deterministic scheduler (FIFO among equal wake-up times)",
+    "virtual time: a hand-over to BTP takes no time and time.sleep(i/1000) lasts exactly i ms; threads are run one "
+    "at a time by a deterministic scheduler (FIFO among equal wake-up times); thread switches inside a repetition / "
+    "a collision risk request are produced at source-line granularity of the DEN service and application files "
+    "(one planned suspension per activation, line drawn by the generator; never while a lock of the service is "
+    "held); switches inside a line, inside the coder or the clock, and true parallelism are not produced",
     "the model is tied to DENMTransmissionManagement / EmergencyVehicleApproachingService / DENMReceptionManagement "
     "by execution on the same request sequences, not by proof",
     "TimeService.timestamp_its computes in floating point; the reference time of the implementation is accepted "
@@ -38,7 +41,9 @@ EXPLANATION = ("theorems for all intervals i > 0 and all durations T over Z (cou
                "nothing for T = 0), for all request sequences of a station (one action identifier per event, pairwise "
                "distinct within the 65 536 cycle and the cycle is tight, reference time = clock reading hence "
                "non-decreasing, destination circle and eventPosition = the position of the request and independent of "
-               "later requests) and for all signed positions on reception (wire image -> LDM record); correspondence "
+               "later requests; any allocation order of the sequence numbers among concurrent requests; any "
+               "interleaving of the construction steps of the DENMs under construction at one instant) and for all "
+               "signed positions on reception (wire image -> LDM record); correspondence "
                "with the real service under a virtual-time thread runner, BTP stub, the repository's coder and a real LDM")
 
 LAT_MIN, LAT_MAX = -900000000, 900000000
@@ -108,6 +113,10 @@ class _Env:
     sched: VSched | None = None
     inline_tag = None
     ready = False
+    traced = ()
+    last_activations = []
+    pending_interleave = []   # (scenario, DENMs of one instant, model request): sent in one batch
+    steps = None      # calibration: traced lines of one activation {"ev0": .., "ev": .., "crw": ..}
 
 
 class _TimeShim:
@@ -127,6 +136,16 @@ class _ThreadingShim:
     def Thread(self):
         return _Env.sched.thread_factory()
 
+    # locks of the code under test: the real primitive + the bookkeeping that keeps a task from being
+    # suspended (cut) inside a critical section
+    @staticmethod
+    def Lock():
+        return VLock(lambda: _Env.sched, _real_threading.Lock())
+
+    @staticmethod
+    def RLock():
+        return VLock(lambda: _Env.sched, _real_threading.RLock())
+
 
 def setup_env():
     if _Env.ready:
@@ -136,6 +155,12 @@ def setup_env():
     import flexstack.facilities.decentralized_environmental_notification_service.denm_transmission_management as dtm
     dtm.time = _TimeShim()
     dtm.threading = _ThreadingShim()
+    # source files in which a running request / repetition may be suspended between two lines (cuts): the
+    # DEN service and the road-hazard-signalling application (the anchored files of the property)
+    import os
+    import flexstack.applications.road_hazard_signalling_service.service_access_point as rhs_sap
+    _Env.traced = (os.path.dirname(os.path.abspath(dtm.__file__)) + os.sep,
+                   os.path.dirname(os.path.abspath(rhs_sap.__file__)) + os.sep)
     # compiling the DENM ASN.1 takes seconds: every service instance of this process shares one
     # (stateless) coder object of the repository's own class
     import flexstack.facilities.decentralized_environmental_notification_service.den_service as dsv
@@ -212,6 +237,8 @@ def run_scenario(ctx, sc_in, label="scenario"):
     from flexstack.btp.service_access_point import CommonNH
 
     sched = VSched()
+    sched.traced = _Env.traced
+    sched.count_steps = bool(sc.get("count_steps"))
     _Env.sched = sched
     VCLOCK.set_ms(BASE_MS)
     stations = []
@@ -229,10 +256,15 @@ def run_scenario(ctx, sc_in, label="scenario"):
         S = stations[rq["st"]]
         t = BASE_MS + rq["t"]
         try:
-            sched.run_until(t)
+            # repetitions due before t are over; those due at t itself have run unless the request is marked
+            # "early" (it is made before them); whatever a cut has suspended at this very instant stays
+            # suspended while the request is made
+            sched.run_until(t, hold_seq=0, strict=bool(rq.get("early")))
         except Exception as e:   # a task died
             crashed = (n, repr(e))
             break
+        mark = sched.mark()
+        plan = {int(k): int(c) for (k, c) in rq.get("cut", [])}
         ev = {"req": rq, "index": len(S["events"]), "t0": t, "error": None}
         tag = (rq["st"], ev["index"])
         S["events"].append(ev)
@@ -256,23 +288,41 @@ def run_scenario(ctx, sc_in, label="scenario"):
             if rq.get("fail_at"):
                 S["btp"].fail_at[tag] = set(rq["fail_at"])
             sched.next_tag = tag
+            sched.next_plan = plan      # cuts of the repetition thread this trigger starts
             _Env.inline_tag = tag
             try:
                 S["app"].trigger_denm_sending(tpv)
-                sched.run_until(t)
+                sched.next_plan = None
+                # the new thread runs up to its first sleep (or cut); then the tasks that were suspended
+                # before this request go on; one that is cut now waits for the next request of this instant
+                sched.run_until(t, hold_seq=mark)
             except Exception as e:
                 ev["error"] = type(e).__name__
+            sched.next_plan = None
             ev["app_pos"] = (S["app"].event_position["latitude"], S["app"].event_position["longitude"])
         else:
             rp = ReferencePosition(latitude=rq["lat"], longitude=rq["lon"],
                                    position_confidence_ellipse=PositionConfidenceEllipse(4095, 4095, 3601),
                                    altitude=Altitude(rq["alt"], rq["conf"]))
+
+            def crw_call(S=S, rp=rp, t=t, ev=ev):
+                try:
+                    req = DENRequest.with_collision_risk_warning(TimestampIts(its_exact(t)), rp)
+                    S["den"].denm_transmission_management.send_collision_risk_warning_denm(req)
+                except Exception as e:
+                    ev["error"] = type(e).__name__
+
             _Env.inline_tag = tag
+            if plan or sched.count_steps:
+                # the caller's thread of this request is a task of its own: it can be suspended between two
+                # lines while the repetitions due at this instant / the next request of this instant run
+                sched.spawn(crw_call, tag, plan)
+            else:
+                crw_call()
             try:
-                req = DENRequest.with_collision_risk_warning(TimestampIts(its_exact(t)), rp)
-                S["den"].denm_transmission_management.send_collision_risk_warning_denm(req)
+                sched.run_until(t, hold_seq=mark)
             except Exception as e:
-                ev["error"] = type(e).__name__
+                ev["error"] = ev["error"] or type(e).__name__
             ev["app_pos"] = (rq["lat"], rq["lon"])
         _Env.inline_tag = None
     last = max([BASE_MS + r["t"] for r in sc["requests"]] + [BASE_MS])
@@ -284,7 +334,13 @@ def run_scenario(ctx, sc_in, label="scenario"):
             crashed = (len(sc["requests"]), repr(e))
     leftover = sched.abandon()
     _Env.sched = None
+    _Env.last_activations = list(sched.activations)
     ctx.count(len(sc["requests"]), "requests_" + label)
+    for c in sched.cuts:
+        # where the planned suspensions fell (function of the code under test), for the input distribution
+        ctx.count(1, "cut_in_" + (c["where"][0] if c["where"] else "none_activation_shorter"))
+        if c["where"]:
+            ctx.nontriv(("cut",) + tuple(c["where"]))
 
     if crashed is not None:
         ctx.property_failure("thread_died", {"scenario": sc_in}, f"a transmission thread raised: {crashed[1]}", "no exception", crashed)
@@ -449,13 +505,65 @@ def parse_model(out):
     return fin, evs
 
 
+def reorder_groups(reqs):
+    """index ranges [a, b) of the station's requests made at one instant of which at least one is suspended
+    (cut) in its first activation: these may reach next_sequence_number in any order; all other requests
+    get their numbers in request order"""
+    out, a = [], 0
+    while a < len(reqs):
+        b = a + 1
+        while b < len(reqs) and reqs[b]["t"] == reqs[a]["t"]:
+            b += 1
+        if b - a > 1 and any(int(k) == 0 for r in reqs[a:b] for (k, _) in r.get("cut", [])):
+            out.append((a, b))
+        a = b
+    return out
+
+
+def allocation_ranks(sc, si, S):
+    """the allocation order handed to the model (cmd 6), or None when the requests of the station get
+    their numbers in request order (cmd 2).  Inside a group of same-instant requests with a cut the order is
+    read off the numbers the implementation used - accepted only as a permutation inside the group, so that
+    every number outside the station's next free ones still shows as a disagreement."""
+    reqs = [r for r in sc["requests"] if r["st"] == si]
+    groups = reorder_groups(reqs)
+    if not groups or len(reqs) >= SEQ_MOD:
+        return None
+    seq0 = sc["stations"][si]["seq0"]
+    ranks = list(range(len(reqs)))
+    for (a, b) in groups:
+        free = list(range(a, b))
+        todo = []
+        for k in range(a, b):
+            txs = S["events"][k]["txs"]
+            r = (txs[0]["seq"] - seq0) % SEQ_MOD if txs else None
+            if r is not None and r in free:
+                ranks[k] = r
+                free.remove(r)
+            else:
+                todo.append(k)
+        for k in todo:
+            ranks[k] = free.pop(0)
+    return ranks
+
+
 def correspondence(ctx, sc_full, stations, sc):
     if not (ctx.model and ctx.model.available):
         return
-    res = ctx.model.batch((2, model_args(sc_full, si)) for si in range(len(stations)))
+    ranks = [allocation_ranks(sc_full, si, S) for si, S in enumerate(stations)]
+    predicted = {}      # (station, event) -> (sequence number, position) of the model
+    with_ranks = [si for si in range(len(stations)) if ranks[si] is not None]
+    res = ctx.model.batch([(2, model_args(sc_full, si)) for si in range(len(stations))] +
+                          [(6, model_args(sc_full, si) + ranks[si]) for si in with_ranks])
+    alloc = dict(zip(with_ranks, res[len(stations):]))
     for si, (S, out) in enumerate(zip(stations, res)):
         fin, mevs = parse_model(out)
         inp = {"scenario": sc, "station": si}
+        if si in alloc:
+            # same-instant requests whose threads were switched before their numbers were taken: the model
+            # with the allocation order made explicit (Den.run_alloc); the final state is that of Den.final
+            _, mevs = parse_model([0, 0, 0] + alloc[si])
+            ctx.count(1, "model_run_alloc")
         mgr = S["den"].denm_transmission_management
         impl_fin = [mgr.sequence_number, S["app"].event_position["latitude"], S["app"].event_position["longitude"]]
         if fin != impl_fin:
@@ -465,6 +573,7 @@ def correspondence(ctx, sc_full, stations, sc):
             continue
         for ev, me in zip(S["events"], mevs):
             rq = ev["req"]
+            predicted[(si, ev["index"])] = (me["seq"], me["pos"])
             if rq["kind"] == "crw" and not isinstance(rq["conf"], str) and len(ev["txs"]) == 1:
                 continue   # the recorded finding was repaired: the property oracle has judged this event
             if tuple(ev["app_pos"]) != tuple(me["pos"]):
@@ -485,6 +594,48 @@ def correspondence(ctx, sc_full, stations, sc):
             if ev["txs"] and ev["txs"][0]["seq"] != me["seq"]:
                 ctx.mismatch("sequence number of the event = Den.ev_seq", dict(inp, event=ev["index"]), me["seq"],
                              ev["txs"][0]["seq"])
+    if any(r.get("cut") for r in sc_full["requests"]):
+        interleaved_constructions(ctx, sc_full, stations, sc, predicted)
+
+
+def interleaved_constructions(ctx, sc_full, stations, sc, predicted):
+    """the DENMs whose construction coincided in one instant (all stations of the process): the model builds
+    them (station, the number and position Den.run / run_alloc gives the event, the instant) with its four
+    steps per message interleaved in an arbitrary order (Den.interleave) and must hand over what the
+    implementation handed over with its threads suspended between lines"""
+    by_t = {}
+    for si, S in enumerate(stations):
+        for ev in S["events"]:
+            for x in ev["txs"]:
+                by_t.setdefault(x["time"], []).append((si, ev["index"], x))
+    for t, group in sorted(by_t.items()):
+        if len(group) < 2:
+            continue
+        group = group[:6]
+        order = [k for k in range(len(group)) for _ in range(4)]
+        ctx.rng.shuffle(order)
+        args = [len(group)]
+        for (si, k, x) in group:
+            seq, pos = predicted.get((si, k), (x["seq"], (x["lat"], x["lon"])))
+            args += [stations[si]["cfg"]["id"], seq, t, pos[0], pos[1]]
+        _Env.pending_interleave.append((sc, group, (7, args + order)))
+
+
+def flush_interleaved(ctx):
+    """one model call for the constructions collected by interleaved_constructions"""
+    reqs, _Env.pending_interleave = _Env.pending_interleave, []
+    if not reqs or not (ctx.model and ctx.model.available):
+        return
+    res = ctx.model.batch(rq for (_, _, rq) in reqs)
+    for (sc, group, _), out in zip(reqs, res):
+        for n, (si, k, x) in enumerate(group):
+            row = out[15 * n:15 * n + 15]
+            impl = [4, x["time"], x["port"], x["shape"], *x["area"], x["hdr"], x["orig"], x["seq"], x["ref"],
+                    x["lat"], x["lon"]]
+            if row[:12] != impl[:12] or row[13:] != impl[13:] or not (row[12] - 1 <= impl[12] <= row[12]):
+                ctx.mismatch("DENMs built at one instant, steps interleaved = Den.interleave",
+                             {"scenario": sc, "station": si, "event": k}, row, impl)
+        ctx.count(len(group), "model_interleave")
 
 
 # ---------------------------------------------------------------------------
@@ -610,6 +761,96 @@ def random_scenario(rng, n_req, n_st=None, int_conf=False):
         else:
             dt = rng.randrange(1, 30000)
         t += dt
+    return {"stations": stations, "requests": reqs}
+
+
+def calibrate(ctx):
+    """traced source lines of one activation of a repetition thread (first / later repetition) and of a
+    collision risk request: the range from which the generator draws the line at which a task is suspended"""
+    sc = {"stations": [{"id": 1, "seq0": 0}], "count_steps": True,
+          "requests": [{"st": 0, "kind": "ev", "t": 0, "lat": 1.0, "lon": 1.0, "alt": 0.0, "i": 100, "T": 200},
+                       {"st": 0, "kind": "crw", "t": 1000, "lat": 1, "lon": 1, "alt": 800001, "conf": "unavailable"}]}
+    got = {}
+    try:
+        run_scenario(ctx, sc, "calibration")
+        for (tag, k, n) in _Env.last_activations:
+            got[(tag, k)] = n
+    except Exception:
+        pass
+    _Env.steps = {"ev0": max(8, got.get(((0, 0), 0), 120)), "ev": max(8, got.get(((0, 0), 1), 120)),
+                  "crw": max(8, got.get(((0, 1), 0), 100))}
+    return _Env.steps
+
+
+def draw_line(rng, steps, kind):
+    """the source line (counted from the start of the activation) at which a task is suspended: uniform over
+    the activation; for a first activation one time in three among its first lines (the call of
+    next_sequence_number lies there)"""
+    if kind in ("ev0", "crw") and rng.random() < 0.33:
+        return rng.randrange(1, 13 if kind == "ev0" else 41)
+    return rng.randrange(1, steps[kind] + 1)
+
+
+def set_cut(r, k, n):
+    cuts = {int(a): int(b) for (a, b) in r.get("cut", [])}
+    cuts.setdefault(k, n)
+    r["cut"] = [[a, cuts[a]] for a in sorted(cuts)]
+
+
+def interleaved_scenario(rng, steps):
+    """events of one process whose DENMs are under construction at the same instant, with the thread of one of
+    them suspended at a source line drawn uniformly from the lines of that activation: requests placed on the
+    repetition instants of running events and on the instant of the previous request, running events with
+    common repetition instants (equal / multiple intervals), collision risk requests suspended in the
+    caller's thread (made before or after the repetitions of their instant)"""
+    n_st = rng.choice([1, 1, 1, 2])
+    ids = rng.sample(range(0, 2 ** 32), n_st) if rng.random() < 0.8 else rng.sample([0, 1, 2 ** 32 - 1, 77], n_st)
+    stations = [{"id": ids[k], "seq0": rng.choice([0, 65534, 65535, rng.randrange(0, SEQ_MOD)])} for k in range(n_st)]
+    t, reqs, running = 0, [], []        # running: (request index, t0, interval, repetitions)
+    for q in range(rng.randrange(2, 7)):
+        st = rng.randrange(n_st)
+        cands = [(a, k) for a in running for k in range(a[3]) if a[1] + k * a[2] >= t]
+        g = rng.random()
+        partner = None
+        if q and cands and g < 0.6:
+            partner = rng.choice(cands)
+            t = partner[0][1] + partner[1] * partner[0][2]
+        elif q and g >= 0.8:
+            t += rng.randrange(1, 1500)
+        if rng.random() < 0.6:
+            if running and rng.random() < 0.5:
+                i = min(10000, max(100, rng.choice(running)[2] * rng.choice([1, 1, 2])))
+            else:
+                i = rng.choice([100, 200, 250, 500, 1000, rng.randrange(100, 1001)])
+            n_rep = rng.randrange(1, 6)
+            T = max(1, n_rep * i + rng.choice([-1, 0, 0, 0]))
+            lat, lon = rand_pos(rng)
+            r = {"st": st, "kind": "ev", "t": t, "lat": lat, "lon": lon, "alt": rng.choice([None, 0.0, 163.5, -50.25]),
+                 "i": i, "T": T}
+            if rng.random() < 0.05:
+                r[rng.choice(["lat", "lon"])] = None
+            if rng.random() < 0.35:
+                set_cut(r, 0, draw_line(rng, steps, "ev0"))
+            running.append((len(reqs), t, i, ceil_div(T, i)))
+        else:
+            lat, lon = rand_pos(rng)
+            r = {"st": st, "kind": "crw", "t": t, "lat": to_units(lat), "lon": to_units(lon),
+                 "alt": rng.choice([800001, 0, -100000, 16350]), "conf": rng.choice(ALT_CONF)}
+            if rng.random() < 0.4:
+                set_cut(r, 0, draw_line(rng, steps, "crw"))
+                if rng.random() < 0.5:
+                    r["early"] = True
+        reqs.append(r)
+        if partner is not None:
+            a, k = partner
+            set_cut(reqs[a[0]], k, draw_line(rng, steps, "ev0" if k == 0 else "ev"))
+    # running events with a common repetition instant: one of them is suspended there
+    for a in running:
+        for k in range(1, a[3]):
+            ta = a[1] + k * a[2]
+            if any(b is not a and b[1] <= ta < b[1] + b[3] * b[2] and (ta - b[1]) % b[2] == 0 for b in running) \
+                    and rng.random() < 0.5:
+                set_cut(reqs[a[0]], k, draw_line(rng, steps, "ev"))
     return {"stations": stations, "requests": reqs}
 
 
@@ -859,6 +1100,21 @@ def shrink(sc, cls, known, budget=80):
             budget -= 1
             if still_fails(cand, cls, known):
                 best, changed = cand, True
+    # suspensions that are not needed for the failure
+    for k in range(len(best["requests"])):
+        r = best["requests"][k]
+        for c in list(r.get("cut", [])):
+            if budget <= 0:
+                break
+            r2 = dict(best["requests"][k])
+            r2["cut"] = [x for x in r2["cut"] if x != c]
+            if not r2["cut"]:
+                del r2["cut"]
+                r2.pop("early", None)
+            cand = {"stations": best["stations"], "requests": best["requests"][:k] + [r2] + best["requests"][k + 1:]}
+            budget -= 1
+            if still_fails(cand, cls, known):
+                best = cand
     # smaller durations keep replays readable
     for k, r in enumerate(best["requests"]):
         if r["kind"] == "ev" and budget > 0:
@@ -902,7 +1158,10 @@ def run(ctx):
                 "exact multiples and +-1 ms, collision risk warnings; 1-3 stations; requests at the same instant, "
                 "inside running events, and apart; positions over the signed range incl. poles and antimeridian; "
                 "sequence counter preset near and across its 16-bit wrap) run through the real DEN service on a "
-                "virtual-time thread runner, every BTP request captured and its DENM decoded; received DENMs with "
+                "virtual-time thread runner, every BTP request captured and its DENM decoded; events whose DENMs are "
+                "under construction at the same instant with one thread suspended between two source lines of the DEN "
+                "service (line drawn uniformly over the activation; kinds cut_in_<function>) while the other "
+                "requests / repetitions of that instant run; received DENMs with "
                 "varied management containers fed through the real reception management into an IF.LDM.3 stub and a "
                 "real LDM. Non-trivial = a request that is admissible (distinct by interval, duration, position) / a "
                 "received DENM that was stored (distinct by position and set of optional members)")
@@ -931,6 +1190,13 @@ def run(ctx):
     if not quick:
         run_scenario(ctx, full_cycle_scenario(ctx.rng), "full_cycle")
     reception_cases(ctx, 400 if quick else 12000, real_every=1 if quick else 3)
+    steps = calibrate(ctx)
+    for n in range(60 if quick else 1500):
+        sc = interleaved_scenario(ctx.rng, steps)
+        run_shrunk(ctx, sc, "interleaved")
+        if n < 2:
+            ctx.sample({"scenario": sc})
+    flush_interleaved(ctx)
     ctx.exhaustive = False
 
 
@@ -942,6 +1208,7 @@ def replay(ctx, data):
     ctx.model = common.Model(MODEL_NAME)
     if "scenario" in inp:
         run_scenario(ctx, inp["scenario"], "replay")
+        flush_interleaved(ctx)
     elif inp.get("op") == "receive":
         reception_cases(ctx, 0, cases=[inp["case"]])
     elif "i" in inp and "T" in inp:
